@@ -330,3 +330,57 @@ Proof.
       * destruct (FP.fix_block_grp (oracle []) (blk_of sh I b bs) g) as [E'|E']; rewrite E'; [left|right]; destruct g; reflexivity.
 Qed.
 End Init.
+
+(* ------------------------------------------------------------------ fixPlan's loop resumes block after block *)
+Fixpoint inc (lo : nat) (l : list nat) : Prop :=
+  match l with [] => True | x :: r => lo <= x /\ inc (S x) r end.
+Fixpoint nondec (lo : nat) (l : list (nat * nat)) : Prop :=
+  match l with [] => True | (b, _) :: r => lo <= b /\ nondec b r end.
+
+Lemma inc_weaken lo lo' l : lo <= lo' -> inc lo' l -> inc lo l.
+Proof. destruct l; simpl; [auto|]. intros H [H1 H2]. split; [lia|exact H2]. Qed.
+
+Lemma inc_nodup l : forall lo, inc lo l -> NoDup l /\ Forall (le lo) l.
+Proof.
+  induction l as [|x l IH]; intros lo H; [split; constructor|]. destruct H as [H1 H2].
+  destruct (IH _ H2) as [N F]. split.
+  - constructor; [|exact N]. intro Hin. rewrite Forall_forall in F. specialize (F _ Hin). lia.
+  - constructor; [exact H1|]. eapply Forall_impl; [|exact F]. intros a Ha. lia.
+Qed.
+
+Lemma nondec_weaken lo lo' l : lo <= lo' -> nondec lo' l -> nondec lo l.
+Proof. destruct l as [|[b q] l]; simpl; [auto|]. intros H [H1 H2]. split; [lia|exact H2]. Qed.
+
+Lemma nondec_const i l l' : nondec i l' -> nondec i (map (fun j => (i, j)) l ++ l').
+Proof. intro H. induction l as [|j l IH]; simpl; [exact H|]. split; [lia|exact IH]. Qed.
+
+Lemma group_inc l : forall lo, nondec lo l -> inc lo (map fst (group_by_block l)).
+Proof.
+  induction l as [|[b q] l IH]; intros lo H; [exact I|]. destruct H as [H1 H2]. specialize (IH _ H2). simpl.
+  destruct (group_by_block l) as [|[b' qs] r]; [simpl; auto|]. simpl in IH. destruct IH as [Hb Hr].
+  destruct (Nat.eqb b b') eqn:E; simpl.
+  - apply Nat.eqb_eq in E. subst b'. auto.
+  - apply Nat.eqb_neq in E. split; [exact H1|]. split; [lia|exact Hr].
+Qed.
+
+Lemma fix_blocks_nondec rs bs : forall i0, nondec i0 (snd (fst (F.fix_blocks rs i0 bs))).
+Proof.
+  induction bs as [|b bs IH]; intro i0; [exact I|]. simpl.
+  destruct (status_eqb (F.bk_st (F.fb_blk (F.fix_block rs b))) Stopped).
+  - simpl. rewrite <- (app_nil_r (map _ _)). apply nondec_const. exact I.
+  - specialize (IH (S i0)). destruct (F.fix_blocks rs (S i0) bs) as [[r' res'] st]. simpl in *.
+    apply nondec_const. eapply nondec_weaken; [|exact IH]. lia.
+Qed.
+
+Lemma fix_plan_resumed_cases rs p :
+  F.fp_resumed (F.fix_plan rs p) = [] \/ F.fp_resumed (F.fix_plan rs p) = snd (fst (F.fix_blocks rs 0 (F.pl_blocks p))).
+Proof.
+  unfold F.fix_plan. destruct (F.fix_blocks rs 0 (F.pl_blocks p)) as [[bs res] stop].
+  repeat match goal with |- context [if ?c then _ else _] => destruct c end; simpl; auto.
+Qed.
+
+Lemma todo_nodup sh I : NoDup (map fst (group_by_block (resumed sh I))).
+Proof.
+  unfold resumed, fixed. destruct (fix_plan_resumed_cases (oracle []) (pln_of sh I)) as [E|E]; rewrite E; [constructor|].
+  exact (proj1 (inc_nodup _ _ (group_inc _ _ (fix_blocks_nondec _ _ 0)))).
+Qed.
